@@ -44,7 +44,7 @@ def run(run):
     run.explanation = EXPLANATION
     run.assumptions += ["numpy: a[::-1] reverses the first axis"]
     run.undecided_clauses += ["numerical values produced by the sampler callables"]
-    for r, n in (("C06.R1", 1), ("C06.R2", 1), ("C06.R2b", 7), ("C06.R3", 5), ("C06.R4", 1), ("C06.R5", 4)):
+    for r, n in (("C06.R1", 1), ("C06.R2", 1), ("C06.R2b", 7), ("C06.R3", 5), ("C06.R4", 1), ("C06.R5", 4), ("C06.R6", 1)):
         run.floor(r, n)
     _r1_r2(run)
     parity.check(run, "C06.R2b", skip_classes=("ToastSampler",))
@@ -52,6 +52,14 @@ def run(run):
     _r3(run)
     _r4(run)
     _r5(run)
+    # the pixel centres handed to the sampler are those of *this* tile in *this* coordinate system: no remembered grid
+    # keyed by less than what determines it
+    from . import memo
+    n_tab = memo.check_module(run, "C06.R6", T)
+    if not memo.selfcheck():
+        run.undecided("C06.R6", None, None, "memo rule self-check failed", kind="selfcheck", construct="<memo selfcheck>")
+    if not [o for o in run.obs if o.rule == "C06.R6"]:
+        run.holds("C06.R6", project_fn(run, T + ".toast_tile_get_coords"), None, "no memo table / shared scratch container in toasty.toast (%d uses); positive example flagged" % n_tab)
 
 
 def _visit_eval(project):
@@ -78,6 +86,10 @@ def _flag_of(r, f):
         elif d[0] == "ite" and d[3] == flipped and d[2] == samp:
             flag = ("op", "not", (d[1],))
     return flag, samp, flipped, img
+
+
+def project_fn(run, q):
+    return run.project.fn(q)
 
 
 def _r1_r2(run):
